@@ -18,6 +18,7 @@ use anyhow::Result;
 use sched_util::*;
 use similari::prelude::*;
 use similari::track::{
+    ObservationAttributes,
     MetricOutput, MetricQuery, NoopLookup, Observation, ObservationMetric, ObservationMetricOk,
     ObservationsDb, Track, TrackAttributes, TrackAttributesUpdate, TrackStatus,
 };
@@ -589,10 +590,6 @@ fn gen_c10(seed: u64, n: usize, tier: &str) {
             let mut ids: Vec<u64> = store.iter().map(|t| t.id).collect();
             rng.shuffle(&mut ids);
             ids.truncate(1 + rng.below(4) as usize);
-            if rng.chance(1, 5) {
-                let d = ids[0];
-                ids.push(d); // the same id twice
-            }
             ccount = owned_cand_count(&store, &ids);
             case.ids = ids;
         } else {
@@ -653,12 +650,313 @@ fn replay_c10(path: &str) {
     }
 }
 
+// =========================================================================================================
+// C05: the simple trackers under every shard count and forced worker finishing orders
+//
+//   sched c05 --seed S --n N --tier T
+// One line per run:
+//   c05 kind=<sort|visual> hist=<id> S=<shards> order=<free|perm:k.k.k|rand:seed> margin=<milli IoU> calls=<n>
+//       recs=<call results joined by '/', records by ';'> trace=<per call: q count, executed shards> status=..
+// The workers' Distances commands of every predict call are executed one at a time in the prescribed order, from
+// inside the hook of the caller's last enqueue (the caller itself blocks in errs.all() right after it).
+
+#[derive(Clone, Debug)]
+struct CDet {
+    x: f32,
+    y: f32,
+    aspect: f32,
+    h: f32,
+    conf: f32,
+    feat: Option<Vec<f32>>,
+}
+
+type Call = (u64, Vec<CDet>);
+
+fn cbox(d: &CDet) -> Universal2DBox {
+    Universal2DBox::new_with_confidence(d.x, d.y, None, d.aspect, d.h, d.conf)
+}
+
+fn c05_visual_opts() -> VisualSortOptions {
+    VisualSortOptions::default()
+        .max_idle_epochs(3)
+        .kept_history_length(3)
+        .visual_metric(VisualSortMetricType::Euclidean(1.0))
+        .positional_metric(PositionalMetricType::IoU(0.3))
+        .visual_minimal_track_length(2)
+        .visual_minimal_area(5.0)
+        .visual_minimal_quality_use(0.45)
+        .visual_minimal_quality_collect(0.7)
+        .visual_max_observations(3)
+        .visual_min_votes(1)
+}
+
+/// objects in lanes 100 apart; some lanes carry a PAIR of objects 8 px apart (cross IoU ~0.43 against own ~0.8),
+/// so the assignment is a real contest but unique by a wide margin. Returns the calls and the margin in milli-IoU
+/// (min own-IoU minus max cross-IoU between consecutive frames of one scene).
+fn gen_c05_history(rng: &mut Rng, visual: bool) -> (Vec<Call>, i64) {
+    let nscenes = 1 + rng.below(2) as usize;
+    let mut objs: Vec<Vec<(f32, f32, f32, f32, usize)>> = vec![];
+    for si in 0..nscenes {
+        let lanes = 2 + rng.below(3) as usize;
+        let mut v = vec![];
+        for j in 0..lanes {
+            let x0 = 100.0 * j as f32 + rng.dyadic(0, 32, 2);
+            let y0 = 80.0 * si as f32 + rng.dyadic(0, 32, 2);
+            let (vx, vy) = (rng.dyadic(-6, 6, 2), rng.dyadic(-6, 6, 2));
+            v.push((x0, y0, vx, vy, v.len()));
+            if rng.chance(1, 2) {
+                v.push((x0 + 8.0, y0 + 1.0, vx, vy, v.len())); // a close companion moving in parallel
+            }
+        }
+        objs.push(v);
+    }
+    let nframes = 5 + rng.below(6) as usize;
+    let mut calls = vec![];
+    let mut last: Vec<Vec<Option<Universal2DBox>>> = objs.iter().map(|o| vec![None; o.len()]).collect();
+    let mut margin = 1000i64;
+    for f in 0..nframes {
+        for si in 0..nscenes {
+            if !rng.chance(5, 6) {
+                continue;
+            }
+            let mut ds = vec![];
+            let mut present = vec![];
+            for (j, o) in objs[si].iter().enumerate() {
+                if rng.chance(1, 7) {
+                    continue;
+                }
+                let d = CDet {
+                    x: o.0 + o.2 * f as f32,
+                    y: o.1 + o.3 * f as f32,
+                    aspect: 0.625,
+                    h: 32.0,
+                    conf: 1.0,
+                    feat: if visual { Some(vec![3.0 * j as f32 + rng.dyadic(0, 4, 5), si as f32 + rng.dyadic(0, 4, 5)]) } else { None },
+                };
+                present.push(j);
+                ds.push(d);
+            }
+            // margin between this frame's detections and the previous boxes of the scene's objects
+            for (k, j) in present.iter().enumerate() {
+                let mut b = cbox(&ds[k]);
+                b.gen_vertices();
+                for (j2, prev) in last[si].iter().enumerate() {
+                    if let Some(p) = prev {
+                        let mut p = p.clone();
+                        p.gen_vertices();
+                        let iou = if Universal2DBox::too_far(&b, &p) {
+                            0.0
+                        } else {
+                            Universal2DBox::calculate_metric_object(&Some(&b), &Some(&p)).unwrap_or(0.0)
+                        };
+                        let m = (iou * 1000.0) as i64;
+                        if *j == j2 {
+                            margin = margin.min(m - 300);
+                        } else {
+                            margin = margin.min(700 - m);
+                        }
+                    }
+                }
+            }
+            for (k, j) in present.iter().enumerate() {
+                last[si][*j] = Some(cbox(&ds[k]));
+            }
+            let mut order: Vec<usize> = (0..ds.len()).collect();
+            rng.shuffle(&mut order);
+            let ds: Vec<CDet> = order.iter().map(|i| ds[*i].clone()).collect();
+            calls.push((5 + 3 * si as u64, ds));
+        }
+    }
+    (calls, margin)
+}
+
+static C05_ORDER: Mutex<Option<Vec<u64>>> = Mutex::new(None); // shard-major order, or None = random
+static C05_RAND: Mutex<Option<Rng>> = Mutex::new(None);
+static C05_TRACE: Mutex<Vec<String>> = Mutex::new(Vec::new());
+static C05_SHARDS: std::sync::atomic::AtomicUsize = std::sync::atomic::AtomicUsize::new(0);
+static C05_ENQ: std::sync::atomic::AtomicUsize = std::sync::atomic::AtomicUsize::new(0);
+
+fn install_c05_hook() {
+    use std::sync::atomic::Ordering;
+    let g = gates().clone();
+    similari::verif_hooks::set_hook(Some(Arc::new(move |site: &'static str, arg: u64| {
+        match site {
+            "store_distances_begin" => g.arrive_and_wait(("dist", arg), "gate_passed"),
+            "store_distances_end" => {
+                g.signal(("dist_end", arg));
+            }
+            "store_distances_enqueued" => {
+                let shards = C05_SHARDS.load(Ordering::SeqCst);
+                let i = C05_ENQ.fetch_add(1, Ordering::SeqCst) + 1;
+                let total = shards * arg as usize;
+                if shards == 0 || i < total {
+                    return;
+                }
+                C05_ENQ.store(0, Ordering::SeqCst);
+                // the last command of this query is queued: run the workers in the prescribed order
+                let ncand = arg as usize;
+                let mut seq: Vec<u64> = vec![];
+                if let Some(order) = C05_ORDER.lock().unwrap().clone() {
+                    for k in order {
+                        for _ in 0..ncand {
+                            seq.push(k);
+                        }
+                    }
+                } else {
+                    let mut left: Vec<usize> = vec![ncand; shards];
+                    let mut guard = C05_RAND.lock().unwrap();
+                    let rng = guard.as_mut().unwrap();
+                    loop {
+                        let open: Vec<usize> = (0..shards).filter(|k| left[*k] > 0).collect();
+                        if open.is_empty() {
+                            break;
+                        }
+                        let k = *rng.pick(&open);
+                        left[k] -= 1;
+                        seq.push(k as u64);
+                    }
+                }
+                for k in &seq {
+                    if let Err(e) = exec_worker(*k) {
+                        g.set_error(e);
+                        break;
+                    }
+                }
+                C05_TRACE.lock().unwrap().push(format!("{}:{}", total, seq.iter().map(|k| k.to_string()).collect::<Vec<_>>().join(".")));
+            }
+            _ => {}
+        }
+    })));
+}
+
+fn c05_run(kind: &str, hist_id: usize, calls: &[Call], margin: i64, shards: usize, order: &str, perm: Option<Vec<u64>>, rseed: u64) {
+    use std::sync::atomic::Ordering;
+    let g = gates();
+    let gated = order != "free";
+    g.reset(gated);
+    C05_TRACE.lock().unwrap().clear();
+    C05_ENQ.store(0, Ordering::SeqCst);
+    C05_SHARDS.store(if gated { shards } else { 0 }, Ordering::SeqCst);
+    *C05_ORDER.lock().unwrap() = perm;
+    *C05_RAND.lock().unwrap() = Some(Rng::new(rseed));
+    let (tx, rx) = mpsc::channel();
+    let (kind_s, calls_c) = (kind.to_string(), calls.to_vec());
+    std::thread::spawn(move || {
+        let r = guarded(|| {
+            let mut out: Vec<String> = vec![];
+            if kind_s == "sort" {
+                let mut t = Sort::new(shards, 1, 3, PositionalMetricType::IoU(0.3), 0.05, None, 1.0 / 20.0, 1.0 / 160.0);
+                for (sid, ds) in &calls_c {
+                    let boxes: Vec<(Universal2DBox, Option<i64>)> = ds.iter().map(|d| (cbox(d), None)).collect();
+                    let r = t.predict_with_scene(*sid, &boxes);
+                    out.push(r.iter().map(enc_sort_track).collect::<Vec<_>>().join(";"));
+                }
+            } else {
+                let mut t = VisualSort::new(shards, &c05_visual_opts());
+                for (sid, ds) in &calls_c {
+                    let obs: Vec<VisualSortObservation> =
+                        ds.iter().map(|d| VisualSortObservation::new(d.feat.as_deref(), Some(0.9), cbox(d), None)).collect();
+                    let r = t.predict_with_scene(*sid, &obs);
+                    out.push(r.iter().map(enc_sort_track).collect::<Vec<_>>().join(";"));
+                }
+            }
+            out
+        });
+        let _ = tx.send(r);
+    });
+    let mut status = String::from("ok");
+    let mut recs = String::new();
+    match rx.recv_timeout(Duration::from_secs(60)) {
+        Ok(Some(out)) => recs = out.join("/"),
+        Ok(None) => status = "panic".into(),
+        Err(_) => status = "hang".into(),
+    }
+    if let Some(e) = g.take_error() {
+        status = format!("stuck:{}", e.replace(' ', "_"));
+    }
+    g.open();
+    C05_SHARDS.store(0, Ordering::SeqCst);
+    println!(
+        "c05 kind={} hist={} S={} order={} margin={} calls={} recs={} trace={} status={}",
+        kind,
+        hist_id,
+        shards,
+        order,
+        margin,
+        calls.len(),
+        recs,
+        C05_TRACE.lock().unwrap().join("|"),
+        status
+    );
+    if status == "hang" {
+        use std::io::Write;
+        std::io::stdout().flush().unwrap();
+        std::process::exit(3);
+    }
+}
+
+fn permutations(n: usize) -> Vec<Vec<u64>> {
+    fn go(cur: &mut Vec<u64>, used: &mut Vec<bool>, out: &mut Vec<Vec<u64>>) {
+        if cur.len() == used.len() {
+            out.push(cur.clone());
+            return;
+        }
+        for k in 0..used.len() {
+            if !used[k] {
+                used[k] = true;
+                cur.push(k as u64);
+                go(cur, used, out);
+                cur.pop();
+                used[k] = false;
+            }
+        }
+    }
+    let mut out = vec![];
+    go(&mut vec![], &mut vec![false; n], &mut out);
+    out
+}
+
+fn gen_c05(seed: u64, n: usize, tier: &str) {
+    let mut rng = Rng::new(seed ^ 0xC05);
+    let thorough = tier == "thorough";
+    let nh = if thorough { 4 * n } else { n };
+    for h in 0..nh {
+        let kind = if h % 2 == 1 { "visual" } else { "sort" };
+        let (calls, margin) = gen_c05_history(&mut rng, kind == "visual");
+        c05_run(kind, h, &calls, margin, 1, "free", None, 0);
+        for shards in 1..=8usize {
+            if shards <= 3 {
+                for p in permutations(shards) {
+                    let name = format!("perm:{}", p.iter().map(|k| k.to_string()).collect::<Vec<_>>().join("."));
+                    c05_run(kind, h, &calls, margin, shards, &name, Some(p), 0);
+                }
+            } else {
+                // a random permutation (shard-major) ...
+                let mut p: Vec<u64> = (0..shards as u64).collect();
+                rng.shuffle(&mut p);
+                let name = format!("perm:{}", p.iter().map(|k| k.to_string()).collect::<Vec<_>>().join("."));
+                c05_run(kind, h, &calls, margin, shards, &name, Some(p), 0);
+            }
+            // ... and fully random command-level finishing orders
+            let reps = if thorough { 3 } else { 1 };
+            for _ in 0..reps {
+                let rs = 1 + rng.below(1 << 30);
+                c05_run(kind, h, &calls, margin, shards, &format!("rand:{}", rs), None, rs);
+            }
+        }
+    }
+}
+
 fn main() {
     quiet_panics();
     let a = parse_args();
     install_hook();
     match a.cmd.as_str() {
         "c10" => gen_c10(a.seed, a.n, &a.tier),
+        "c05" => {
+            install_c05_hook();
+            gen_c05(a.seed, a.n, &a.tier)
+        }
         "c10replay" => replay_c10(a.file.as_deref().expect("--file")),
         "count" => {
             for (s, c) in [(1, 1), (1, 2), (2, 1), (2, 2)] {
